@@ -139,6 +139,8 @@ def pointer_variants(rng, doc):
 
 def case_c15(rng, cid):
     doc = gen_doc(rng, maxdepth=rng.choice([2, 3, 5]), long_arrays=rng.random() < 0.4)
+    if rng.random() < 0.5:
+        sprinkle_flags(rng, doc)      # constant keys / reference scalars must not change what a pointer designates
     ops = ['build 1 ' + to_tn(doc)]
     exp = {}
     for p in pointer_variants(rng, doc):
@@ -405,6 +407,9 @@ def case_c16(rng, cid):
         claim = not run.bad_syntax
     except rfc.Undefined:
         ok, res, run, claim = None, None, None, False
+    if rng.random() < 0.3:
+        rfc.set_parent(doc0)
+        sprinkle_flags(rng, doc0)
     ptn = to_tn(patch)
     if rng.random() < 0.3:
         fp = patch.clone()
@@ -581,6 +586,12 @@ def case_c17(rng, cid):
         for n in all_nodes(to):
             if n.kind == 'o' and len(n.kids) > 1:
                 rng.shuffle(n.kids)
+    if rng.random() < 0.4:
+        rfc.set_parent(frm)
+        sprinkle_flags(rng, frm)
+    if rng.random() < 0.3:
+        rfc.set_parent(to)
+        sprinkle_flags(rng, to)
     ops = ['build 1 ' + to_tn(frm), 'build 2 ' + to_tn(to), 'genp 3 1 2 1', 'tn 3', 'chk 1', 'tn 1', 'chk 2', 'tn 2', 'build 4 ' + to_tn(frm), 'patch 4 3 1', 'chk 4', 'tn 4']
     marks = {'patch': 3, 'from': 5, 'to': 7, 'status': 9, 'applied': 11}
     return (cid, 'default' if cid % 2 else 'custom', ops), (frm, to, marks)
@@ -704,12 +715,21 @@ def case_c18(rng, cid):
         if rng.random() < 0.5:
             rfc.set_parent(patch)
             sprinkle_flags(rng, patch)
+        if rng.random() < 0.3:
+            rfc.set_parent(target)
+            sprinkle_flags(rng, target)
         ops = ['build 1 ' + to_tn(target), 'build 2 ' + to_tn(patch), 'chk 2', 'merge 3 1 2 1', 'chk 3', 'tn 3', 'chk 2', 'print 3 0', 'del 3', 'del 2']
         return (cid, 'default' if cid % 4 else 'custom', ops), ('apply', target, patch, res)
     frm = gen_doc(rng, maxdepth=rng.choice([1, 2, 3, 4]), nulls=False)
     to = mutate_doc(rng, frm, nulls=False) if rng.random() < 0.85 else gen_doc(rng, maxdepth=3, nulls=False)
     if rfc.has_null_member(to):
         to = frm.clone()
+    if rng.random() < 0.4:
+        rfc.set_parent(frm)
+        sprinkle_flags(rng, frm)
+    if rng.random() < 0.3:
+        rfc.set_parent(to)
+        sprinkle_flags(rng, to)
     ops = ['build 1 ' + to_tn(frm), 'build 2 ' + to_tn(to), 'genm 3 1 2 1', 'tn 3', 'chk 1', 'tn 1', 'chk 2', 'tn 2', 'build 4 ' + to_tn(frm), 'merge 5 4 3 1', 'chk 5', 'tn 5']
     # continued use of the inputs after the (sorting) generator
     ops += ['cnum 6 %016x' % d2b(7.0), 'addo 1 %s 6' % hx(b'zz-appended') if frm.kind == 'o' else 'del 6', 'chk 1', 'tn 1',
